@@ -21,7 +21,7 @@ def plan(tier):
 
 
 def strategy(tier):
-    return machine_spec("oom", tier)
+    return st.one_of(machine_spec("oom", tier), machine_spec("oom", tier), machine_spec("oom", tier), machine_spec("edge", tier))
 
 
 run_case = make_run_case({"C11", "C04"}, lambda o: "crossing_3plus_usage_order_ne_score_order" in o.labels
